@@ -79,6 +79,9 @@ struct Scn {
     /// the application builds the Multiplexor and starts (first polls) its connection task only this much later (ms):
     /// start-up, for the keepalive, is the moment the task starts
     late_start_ms: u64,
+    /// two application tasks send datagrams at the very instants of the keepalive ticks over a link that takes ONE
+    /// message at a time: the Ping waits in the outbound queue with other messages before and behind it
+    chatter: bool,
 }
 
 fn od(ms: u64) -> OptionalDuration {
@@ -131,12 +134,29 @@ async fn run_async(sc: &Scn, render: bool) -> RunOutput {
         o
     };
     let cfg = SideCfg { opts: o, rng: vec![] };
-    let mut w = World::one(if sc.hung_tail { 2 } else { UNBOUNDED_CAP }, 0, &cfg);
+    let mut w = World::one(if sc.hung_tail { 2 } else if sc.chatter { 1 } else { UNBOUNDED_CAP }, 0, &cfg);
     let mut raw = Raw::new(1, w.sim.link.clone());
     if sc.late_start_ms > 0 {
         tokio::time::advance(Duration::from_millis(sc.late_start_ms)).await;
     }
     let t0 = Instant::now();
+    if sc.chatter {
+        for c in 0..2u8 {
+            let mux = w.mux(0);
+            let ival = Duration::from_millis(sc.interval);
+            w.sim.spawn(if c == 0 { "chat1.a" } else { "chat2.a" }, crate::apps::group_of(0), async move {
+                for k in 1..=3u32 {
+                    tokio::time::sleep_until(t0 + ival * k).await;
+                    for n in 0..2u8 {
+                        let d = penguin_mux::Datagram { flow_id: 7, target_host: bytes::Bytes::from_static(b"c"), target_port: 1, data: bytes::Bytes::from(vec![c, k as u8, n]) };
+                        if mux.send_datagram(d).await.is_err() {
+                            return;
+                        }
+                    }
+                }
+            });
+        }
+    }
     let hang = std::rc::Rc::new(tokio::sync::Notify::new());
     let mut hung_at: Option<Duration> = None;
     if sc.hung_tail {
@@ -174,7 +194,7 @@ async fn run_async(sc: &Scn, render: bool) -> RunOutput {
     let mut next_peer_ping = t0 + i / 2;
     loop {
         if w.sim.steps > 20_000 {
-            push_viol(&mut viol, "livelock", "step horizon".into());
+            push_viol(&mut viol, "livelock", format!("step horizon; last steps: {}", w.sim.log.iter().rev().take(14).map(|st| w.sim.describe(st)).collect::<Vec<_>>().join(" <- ")));
             break;
         }
         let now = Instant::now();
@@ -427,7 +447,7 @@ pub fn run(args: &Args) -> Report {
                 if interval == 0 && (code != 0 || prompt_tail) {
                     continue;
                 }
-                let sc = Scn { interval, timeout, rounds: hist.clone(), prompt_tail, hung_tail: false, peer_pings: false, jitter: false, late_ms: 2, half_tail: false, timeout_first: false, idle_stall_ms: 0, late_start_ms: 0 };
+                let sc = Scn { interval, timeout, rounds: hist.clone(), prompt_tail, hung_tail: false, peer_pings: false, jitter: false, late_ms: 2, half_tail: false, timeout_first: false, idle_stall_ms: 0, late_start_ms: 0, chatter: false };
                 let label = format!("I={interval}ms T={}ms history={hist:?} then {}", if timeout == 0 { "NONE".to_string() } else { timeout.to_string() }, if prompt_tail { "prompt" } else { "silent" });
                 cases.push(Case { try_unbounded: false, max_k: u32::MAX, label, exec: Box::new(move |r| exec(&sc, r)) });
             }
@@ -443,7 +463,7 @@ pub fn run(args: &Args) -> Report {
             let total = 2usize.pow(len as u32);
             for code in 0..total {
                 let hist: Vec<Delay> = (0..len).map(|r| if (code >> r) & 1 == 0 { Delay::Zero } else { Delay::Half }).collect();
-                let sc = Scn { interval, timeout, rounds: hist.clone(), prompt_tail: false, hung_tail: true, peer_pings: false, jitter: false, late_ms: 2, half_tail: false, timeout_first: false, idle_stall_ms: 0, late_start_ms: 0 };
+                let sc = Scn { interval, timeout, rounds: hist.clone(), prompt_tail: false, hung_tail: true, peer_pings: false, jitter: false, late_ms: 2, half_tail: false, timeout_first: false, idle_stall_ms: 0, late_start_ms: 0, chatter: false };
                 let label = format!("I={interval}ms T={}ms history={hist:?} then the peer hangs (reads nothing), send side congested", if timeout == 0 { "NONE".to_string() } else { timeout.to_string() });
                 cases.push(Case { try_unbounded: false, max_k: u32::MAX, label, exec: Box::new(move |r| exec(&sc, r)) });
             }
@@ -455,7 +475,7 @@ pub fn run(args: &Args) -> Report {
             continue;
         }
         for (hist, prompt_tail) in [(vec![], false), (vec![Delay::Zero, Delay::Zero], false), (vec![Delay::Zero, Delay::Half, Delay::Zero], true)] {
-            let sc = Scn { interval, timeout, rounds: hist.clone(), prompt_tail, hung_tail: false, peer_pings: false, jitter: false, late_ms: 2, half_tail: false, timeout_first: true, idle_stall_ms: 0, late_start_ms: 0 };
+            let sc = Scn { interval, timeout, rounds: hist.clone(), prompt_tail, hung_tail: false, peer_pings: false, jitter: false, late_ms: 2, half_tail: false, timeout_first: true, idle_stall_ms: 0, late_start_ms: 0, chatter: false };
             let label = format!("I={interval}ms T={timeout}ms (timeout set BEFORE the interval) history={hist:?} then {}", if prompt_tail { "prompt" } else { "silent" });
             cases.push(Case { try_unbounded: false, max_k: u32::MAX, label, exec: Box::new(move |r| exec(&sc, r)) });
         }
@@ -465,7 +485,7 @@ pub fn run(args: &Args) -> Report {
         if interval == 0 {
             continue;
         }
-        let sc = Scn { interval, timeout, rounds: vec![Delay::Zero; 3], prompt_tail: true, hung_tail: false, peer_pings: false, jitter: true, late_ms: 2, half_tail: false, timeout_first: false, idle_stall_ms: 0, late_start_ms: 0 };
+        let sc = Scn { interval, timeout, rounds: vec![Delay::Zero; 3], prompt_tail: true, hung_tail: false, peer_pings: false, jitter: true, late_ms: 2, half_tail: false, timeout_first: false, idle_stall_ms: 0, late_start_ms: 0, chatter: false };
         let label = format!("I={interval}ms T={}ms every Ping answered at once; one poll of the connection task comes 2 ms late", if timeout == 0 { "NONE".to_string() } else { timeout.to_string() });
         cases.push(Case { try_unbounded: false, max_k: 0, label, exec: Box::new(move |r| exec(&sc, r)) });
     }
@@ -475,9 +495,19 @@ pub fn run(args: &Args) -> Report {
         if interval == 0 {
             continue;
         }
-        let sc = Scn { interval, timeout, rounds: vec![Delay::Zero; 3], prompt_tail: true, hung_tail: false, peer_pings: false, jitter: false, late_ms: 2, half_tail: false, timeout_first: false, idle_stall_ms: interval * 16 / 5, late_start_ms: 0 };
+        let sc = Scn { interval, timeout, rounds: vec![Delay::Zero; 3], prompt_tail: true, hung_tail: false, peer_pings: false, jitter: false, late_ms: 2, half_tail: false, timeout_first: false, idle_stall_ms: interval * 16 / 5, late_start_ms: 0, chatter: false };
         let label = format!("I={interval}ms T={}ms every Ping answered at once; the idle process is frozen once for {} ms with no Ping outstanding", if timeout == 0 { "NONE".to_string() } else { timeout.to_string() }, sc.idle_stall_ms);
         cases.push(Case { try_unbounded: false, max_k: 0, label, exec: Box::new(move |r| exec(&sc, r)) });
+    }
+    // a busy link: datagrams of two application tasks are queued at the instants of the ticks, the link takes one message
+    // at a time; the peer answers every Ping at once. Every Ping must still go out (one per interval)
+    for &(interval, timeout) in &cfgs2 {
+        if interval == 0 {
+            continue;
+        }
+        let sc = Scn { interval, timeout, rounds: vec![Delay::Zero; 4], prompt_tail: true, hung_tail: false, peer_pings: false, jitter: false, late_ms: 2, half_tail: false, timeout_first: false, idle_stall_ms: 0, late_start_ms: 0, chatter: true };
+        let label = format!("I={interval}ms T={}ms every Ping answered at once; two application tasks send datagrams at the instants of the ticks over a link of capacity 1", if timeout == 0 { "NONE".to_string() } else { timeout.to_string() });
+        cases.push(Case { try_unbounded: false, max_k: 2, label, exec: Box::new(move |r| exec(&sc, r)) });
     }
     // the connection task is started (first polled) later than the Multiplexor was built: by a little, by more than
     // the timeout, by several timeouts; the peer answers every Ping at once, resp. never
@@ -488,7 +518,7 @@ pub fn run(args: &Args) -> Report {
         let t = if timeout == 0 { interval } else { timeout.max(interval) };
         for late in [t / 2, t + 1, 3 * t + 7] {
             for prompt_tail in [true, false] {
-                let sc = Scn { interval, timeout, rounds: vec![], prompt_tail, hung_tail: false, peer_pings: false, jitter: false, late_ms: 2, half_tail: false, timeout_first: false, idle_stall_ms: 0, late_start_ms: late };
+                let sc = Scn { interval, timeout, rounds: vec![], prompt_tail, hung_tail: false, peer_pings: false, jitter: false, late_ms: 2, half_tail: false, timeout_first: false, idle_stall_ms: 0, late_start_ms: late, chatter: false };
                 let label = format!("I={interval}ms T={}ms connection task started {late} ms after the Multiplexor was built; peer {}", if timeout == 0 { "NONE".to_string() } else { timeout.to_string() }, if prompt_tail { "answers every Ping at once" } else { "never answers" });
                 cases.push(Case { try_unbounded: false, max_k: 0, label, exec: Box::new(move |r| exec(&sc, r)) });
             }
@@ -510,7 +540,7 @@ pub fn run(args: &Args) -> Report {
             for code in 0..total {
                 let hist: Vec<Delay> = (0..len).map(|r| if (code >> r) & 1 == 0 { Delay::Zero } else { Delay::Half }).collect();
                 for prompt_tail in [false, true] {
-                    let sc = Scn { interval, timeout, rounds: hist.clone(), prompt_tail, hung_tail: false, peer_pings: true, jitter: false, late_ms: 2, half_tail: false, timeout_first: false, idle_stall_ms: 0, late_start_ms: 0 };
+                    let sc = Scn { interval, timeout, rounds: hist.clone(), prompt_tail, hung_tail: false, peer_pings: true, jitter: false, late_ms: 2, half_tail: false, timeout_first: false, idle_stall_ms: 0, late_start_ms: 0, chatter: false };
                     let label = format!("I={interval}ms T={}ms history={hist:?} then {}; the peer sends its own Ping every interval throughout", if timeout == 0 { "NONE".to_string() } else { timeout.to_string() }, if prompt_tail { "prompt" } else { "silent" });
                     cases.push(Case { try_unbounded: false, max_k: u32::MAX, label, exec: Box::new(move |r| exec(&sc, r)) });
                 }
